@@ -20,6 +20,7 @@ open Pg.C08 (Atom Key NotifyKind)
 under the flag, `rebind` as the caller says, `update` never, `clear`/`reverse`/`popitem` nobody. -/
 theorem C09_table :
     genNotify .setKey = [.flag, .flag] ∧ genNotify .delKey = [.flag] ∧ genNotify .append = [.flag] ∧
+    genNotify .extend = [.flag, .none, .none] ∧
     genNotify .rebind = [.param, .param, .param] ∧ genNotify .update = [.skip] ∧
     genNotify .clear = [.none, .none] ∧ genNotify .reverse = [.none] ∧ genNotify .popitem = [.none] := by
   decide
@@ -103,6 +104,7 @@ theorem C09_exactly_once (root : T) (hwf : WF root) (ups : List (Update × Path)
 def OpFresh : Op → Prop
   | .setKey _ v => Fresh v
   | .append v => Fresh v
+  | .extend vs => ∀ v ∈ vs, Fresh v
   | .rebind pairs => ∀ pv ∈ pairs, Fresh pv.2
   | .update kvs => ∀ kv ∈ kvs, Fresh kv.2
   | _ => True
@@ -152,6 +154,19 @@ theorem C09_fresh (n : Bool) (root : T) (recv : Path) (op : Op) (hf : Fresh root
         cases u with
         | none => exact hf
         | some u => exact finish_fresh _ _ _ h1
+    · exact hf
+  | extend vs =>
+    simp only [step]
+    split
+    · next m items hg =>
+      cases hw : writeAll root recv ((List.range vs.length).zip vs |>.map fun (i, v) => ([Key.i (items.length + i)], v)) [] with
+      | none => exact hf
+      | some r =>
+        obtain ⟨r', ups⟩ := r
+        refine finish_fresh _ _ _ (writeAll_fresh recv _ root [] r' ups hf ?_ hw)
+        intro pv h
+        obtain ⟨iv, hiv, rfl⟩ := List.mem_map.1 h
+        exact hv iv.2 (List.of_mem_zip hiv).2
     · exact hf
   | rebind pairs =>
     simp only [step]
